@@ -19,8 +19,8 @@ RULE = ("running average: corpus witness of F17-2, exhaustive n in 1..8 (quick) 
         "AccSignal/array/list/None operands. distinct = hash of (function, record, options); non-trivial = length >= 3 and not constant")
 TIE = ("correspondence (hand model Model/Single.lean on exact rationals; filtfilt∘butter abstract: bookkeeping compared with the filter "
        "replaced by the identity, np.polyfit abstract: the model is run with the impl's own coefficients)")
-NOT_PROVED = ["C17.c gain/phase clause (kind S): that scipy.signal.butter has the analytic Butterworth magnitude and that filtfilt on a finite "
-              "record behaves like the bi-infinite two-pass filter away from the ends — evaluated numerically against scipy.signal.freqz "
+NOT_PROVED = ["C17.c: the analytic gain IS proved about the executable model of scipy.signal.butter (Props/C17Butter: |B_n(iW)|^2 = 1+W^2n for every n, bilinear map on the unit circle, low/high/band-pass digital gain = 1/(1+Omega^2n), zero phase of forward-backward filtering on bi-infinite sequences, range and monotonicity); NOT proved: that SciPy's floating-point butter equals that model (compared on every run, measured 1.1e-14), the (b, a) form of the band pass (zpk form proved), and filtfilt on a FINITE record (edge padding, initial conditions, Gibbs padding): 'away from the ends' is evaluated numerically",
+              "record behaves like the bi-infinite two-pass filter away from the ends — evaluated numerically against scipy.signal.freqz ",
               "(2 % of the amplitude on the middle half); the theorem zero_phase covers H(e^{iw})H(e^{-iw}) = |H|^2 only",
               "np.polyfit returns least-squares coefficients (kind X; normal-equation residual checked on every detrending case)",
               "linearity of filtfilt itself (kind X; checked numerically on every linearity case)",
